@@ -8,7 +8,7 @@ from ..netcases import c11_params, run_c10_endings_case, run_c11_case, run_conne
 
 ID = 'C10'
 LEVEL = 'fault_enumeration'
-QUICK_SCALE = 4      # the quick tier was enlarged by this factor after MIN_OBS['quick'] was measured
+QUICK_SCALE = 8      # the quick tier was enlarged by this factor after MIN_OBS['quick'] was measured
 RULE = ("A per-connection automaton is fed by the client's ConnectionStateChangedEvent / MessageReceivedEvent stream: "
         "states only move forward (UNINITIALIZED < CONNECTING < CONNECTED < CLOSING < CLOSED; only the server "
         "connection may go CLOSED -> CONNECTING), CLOSED exactly once per connection that ever reported a state, "
@@ -35,7 +35,7 @@ SHARD_TIMEOUT = {'quick': 900, 'thorough': 7200}
 
 def cases(tier: str, seed: int) -> list[dict]:
     out = []
-    n_end, n_req, n_cb = (1500, 1000, 200) if tier == 'quick' else (150000, 80000, 15000)
+    n_end, n_req, n_cb = (3000, 2000, 400) if tier == 'quick' else (150000, 80000, 15000)
     for _ in range(n_end):
         out.append({'kind': 'endings', 'seed': seed, 'n': len(out)})
     for _ in range(n_req):
